@@ -2,5 +2,7 @@ SPECIFICATION TSpec
 CONSTANTS
   Shapes = {}
   Points = {}
+  Vias = {}
+  DetachBackend = FALSE
 INVARIANTS Report
 CHECK_DEADLOCK FALSE
